@@ -177,12 +177,32 @@ def truth_of(term):
     return z3.Bool(f"truth:{term!r}")
 
 
+def _statement_values_tested(term):
+    """sequencer results whose truth decides `term`'s truth and that may be a single statement's own value"""
+    out = []
+    if isinstance(term, tuple) and term:
+        k = term[0]
+        if k == "seqresult" and len(term) > 1 and term[1] in ("one", "unknown"):
+            out.append(term[1])
+        elif k == "boolop":
+            out += _statement_values_tested(term[2]) + _statement_values_tested(term[3])
+        elif k == "ifexp":
+            out += _statement_values_tested(term[2]) + _statement_values_tested(term[3])
+        elif k == "unary" and term[1] == "Not":
+            out += _statement_values_tested(term[2])
+    return out
+
+
 def guarded(tr, cond=None):
     cond = z3.BoolVal(True) if cond is None else cond
     out = []
     for e in tr:
         if e[0] == "choice":
             t = truth_of(e[1])
+            for sub in _statement_values_tested(e[1]):
+                # the truth value of a STATEMENT's value is taken: bool() of an object the user's
+                # expression produced (Python never does that for a statement)
+                out.append((cond, ("truth-test-of-a-statement-value", sub)))
             out.extend(guarded(e[2], z3.And(cond, t)))
             out.extend(guarded(e[3], z3.And(cond, z3.Not(t))))
         elif e[0] == "rep":
